@@ -22,6 +22,33 @@ def named_species(I, names):
     return out
 
 
+def named_in_message(I, r, whole):
+    """the text fields formatted on their own into the message of a raised exception, i.e. outside the copies of the
+    whole reaction string (which holds every species); None: the exception carries no message at all"""
+    if r.args is None:
+        raise Unsupported('the message of the exception has no abstract value')
+    if not r.args:
+        return None
+    msg = r.args[0]
+    if isinstance(msg, str):
+        msg = I.seg(msg)
+    if not isinstance(msg, SegStr):
+        raise Unsupported('the message of the exception is %r' % (msg,))
+    segs, w = list(msg.segs), list(I.seg(whole).segs)
+
+    def eq(a, b):
+        return a.kind == b.kind and (a.text == b.text if a.kind == 'lit' else a.value == b.value)
+    out, i = [], 0
+    while i < len(segs):
+        if w and len(segs) - i >= len(w) and all(eq(a, b) for a, b in zip(segs[i:i + len(w)], w)):
+            i += len(w)
+            continue
+        if segs[i].kind == 'field':
+            out.append(segs[i].value)
+        i += 1
+    return out
+
+
 def check(run, repo):
     run.explanation = (
         'Reaction.to_string/_write_reaction_state and Reaction.from_string/_parse_reaction/_parse_reaction_state are '
@@ -231,21 +258,35 @@ def check(run, repo):
         run.check(ok, 'REF.parse', 'Reaction.from_string', label,
                   '%s: %s parses to %s' % (label, show(s_, 120), show(r.attrs if isinstance(r, Obj) else r, 200)),
                   owner_fs.module, fn_fs, sample='%s: %s' % (label, show(s_, 100)))
-    # unknown species -> KeyError
-    r = I.call_function(owner_fs.module, fn_fs, [], {'reaction_str': A + '=' + B, 'species': DictV({kA: sp[kA]})},
-                        self_obj=ci, owner=owner_fs)
-    run.check(isinstance(r, Raised) and r.exc == 'KeyError', 'PATH.unknown-species', 'Reaction.from_string', 'product',
-              'a species missing from the dictionary must raise KeyError naming it, got %s' % show(r), owner_fs.module,
-              fn_fs)
-    r = I.call_function(owner_fs.module, fn_fs, [], {'reaction_str': A + '=' + B, 'species': DictV({kB: sp[kB]})},
-                        self_obj=ci, owner=owner_fs)
-    run.check(isinstance(r, Raised) and r.exc == 'KeyError', 'PATH.unknown-species', 'Reaction.from_string', 'reactant',
-              'a species missing from the dictionary must raise KeyError naming it, got %s' % show(r), owner_fs.module,
-              fn_fs)
+    # unknown species -> KeyError whose message names the species that was not found (and none that was found),
+    # wherever it stands
+    kY, kX = Z + 'Y', Z + 'X'
+    I.sym_strings[kY] = (3, 'text')
+    I.sym_strings[kX] = (2, 'text')
+    Y = SegStr.field(kY, 3, 'text')
+    for label, s_, have, missing in (
+            ('product', A + '=' + B, [kA], [kB]), ('reactant', A + '=' + B, [kB], [kA]),
+            ('second product', A + '=' + B + '+' + Y, [kA, kB], [kY]),
+            ('second reactant', A + '+' + Y + '=' + B, [kA, kB], [kY]),
+            ('first product of two', A + '=' + Y + '+' + B, [kA, kB], [kY]),
+            ('product, after a transition state', A + '=' + TSn + '=' + Y, [kA, kT], [kY])):
+        r = I.call_function(owner_fs.module, fn_fs, [], {'reaction_str': s_, 'species': DictV({k_: sp[k_] for k_ in have})},
+                            self_obj=ci, owner=owner_fs)
+        ok = isinstance(r, Raised) and r.exc == 'KeyError'
+        why = 'got %s' % show(r)
+        if ok:
+            named = named_in_message(I, r, s_)
+            ok = named is not None and set(missing) <= set(named) and not (set(have) & set(named))
+            why = 'the message names %s' % ('nothing' if not named else sorted(x.strip(Z + '~') for x in set(named)))
+        run.check(ok, 'PATH.unknown-species', 'Reaction.from_string', label,
+                  'parsing %s with only %s in the dictionary must raise KeyError naming the species that is missing '
+                  '(%s) and no species that was found; %s'
+                  % (show(s_, 80), [x.strip(Z) for x in have], [x.strip(Z + '~') for x in missing], why),
+                  owner_fs.module, fn_fs)
     # a transition state that cannot be found, under the documented options: an error naming it by default; with
     # raise_error=False the reaction is built without a transition state (no partial one, no stray coefficients),
     # announced by a warning unless raise_warning=False - wherever the unknown species stands in the transition state
-    X = SegStr.field('~X', 2, 'text')
+    X = SegStr.field(kX, 2, 'text')
     for ts_label, ts_txt in (('TS = X', X), ('TS = X + B', X + '+' + B), ('TS = B + X', B + '+' + X)):
         for re_, rw_ in ((True, True), (False, True), (False, False)):
             nw = len(I.warnings)
@@ -256,6 +297,11 @@ def check(run, repo):
             if re_:
                 ok = isinstance(r, Raised) and r.exc == 'KeyError'
                 why = 'must raise KeyError naming the species, got %s' % show(r, 100)
+                if ok:
+                    named = named_in_message(I, r, A + '=' + ts_txt + '=' + B)
+                    ok = named is not None and kX in named and not ({kA, kB} & set(named))
+                    why = 'must raise KeyError naming the species; the message names %s' % (
+                        'nothing' if not named else sorted(x.strip(Z + '~') for x in set(named)))
             else:
                 ok = isinstance(r, Obj)
                 why = 'must give a reaction, got %s' % show(r, 100)
@@ -458,5 +504,11 @@ MUTANTS = [
                 "        rxn = super().from_string(reaction_str=reaction_str,\n                                  species=species,")]},
     {'name': 'RING reader cuts the last character instead of the newline', 'expect': ('', 'ring.read_reactions'),
      'edits': [('pmutt/io/ring.py', "line.replace('\\n', '')", "line[:-1]")]},
+    {'name': 'message for an unknown product names the first reactant', 'expect': ('PATH.unknown-species', 'from_string'),
+     'edits': [(R_, "''.format(name, reaction_str))", "''.format(react_names[0], reaction_str))", 1, 2)]},
+    {'name': 'message for an unknown reactant holds the reaction string only', 'expect': ('PATH.unknown-species', 'from_string'),
+     'edits': [(R_, "''.format(name, reaction_str))", "''.format(reaction_str, reaction_str))", 0, 2)]},
+    {'name': 'unknown transition state raises without a message', 'expect': ('PATH.unknown-species', 'from_string'),
+     'edits': [(R_, "                        raise KeyError(err_msg)", "                        raise KeyError")]},
 ]
 EQUIV = []
